@@ -100,6 +100,16 @@ def programs():
             f2 = dict(name="fn_aussen", params=[("q", ty, True)], ret="N",
                       body=[("expr", ("call", "fn_liest", [("p", ("var", "q"))]))])
             yield lab + ":ref-forwarded-readonly", prog([da], [f, f2], [("expr", ("call", "fn_aussen", [("q", a)]))] + dump("a", ty))
+            # the caller is a function and passes its own local variable; the callee changes its value
+            # parameter without showing it to anybody (what the optimiser at -O 2 must still notice)
+            f = dict(name="fn_still", params=[("p", ty, False)], ret="N", body=mut(("var", "p")))
+            f2 = dict(name="fn_lokal", params=[("u", "Z", False)], ret="N",
+                      body=[("decl", ty, "lok", v1), ("expr", ("call", "fn_still", [("p", ("var", "lok"))]))] + dump("lok", ty))
+            yield lab + ":local-value-arg-silent", prog([], [f, f2], [("expr", ("call", "fn_lokal", [("u", ("int", 0))]))])
+            f3 = dict(name="fn_lokal2", params=[("u", "Z", False)], ret="N",
+                      body=[("decl", ty, "lok", v1), ("decl", ty, "lok2", ("var", "lok")), ("expr", ("call", "fn_still", [("p", ("var", "lok2"))]))]
+                      + dump("lok", ty) + dump("lok2", ty))
+            yield lab + ":local-copy-value-arg-silent", prog([], [f, f3], [("expr", ("call", "fn_lokal2", [("u", ("int", 0))]))])
             # returning: the result is a copy of the global
             f = dict(name="fn_gib", params=[("u", "Z", False)], ret=ty, body=[("ret", a)])
             yield lab + ":return", prog([da], [f], [("decl", ty, "b", ("call", "fn_gib", [("u", ("int", 0))]))] + mut(b) + dump("a", ty) + dump("b", ty))
